@@ -421,7 +421,7 @@ def handle : Handler := fun op inp impl =>
       holds := holds, nontrivial := kind != "valid", cls := "bad:proto:" ++ kind,
       model := toJson mCls,
       why := if holds then "" else
-        (if accepted && parses && !bool (field impl "unknownTop") && unkAny then "F28: StrictProtoCodec accepts a message with an unknown field inside a nested message (only the top-level unknown-field set is looked at): " else "") ++
+        (if accepted && parses && !bool (field impl "unknownTop") && unkAny then "F30: StrictProtoCodec accepts a message with an unknown field inside a nested message (only the top-level unknown-field set is looked at): " else "") ++
         s!"strict proto codec on {kind} input {hex data}: outcome {cls} (field {nat (field impl "num")}), but the library says parses={parses}, unknown fields at the top level={bool (field impl "unknownTop")}, at any depth={unkAny}; top-level walk of the model: {reprStr m}" }
   | _ => bad ("C18: unknown op " ++ op)
 
